@@ -527,7 +527,9 @@ def analyse_sql_structure(root) -> SqlStructure:
     def desc(kind, terms=None, mergeable=False, dep_keys=None, suffix=False):
         return {"kind": kind, "terms": terms, "mergeable": mergeable, "dep_keys": dep_keys, "suffix": suffix}
 
-    def walk(node, using, cause, star=False):
+    def walk(node, using, cause, star=False, bound=None):
+        # bound: the columns the nearest rendering consumer binds from this node (to_bound_near_sql(columns=...));
+        # None = all.  An elided extend widens `using` for its source but not what is finally bound.
         # star: the rows of this node reach the final result through `SELECT *` only (root, or below a root order_rows)
         nm = node.node_name
         if using is None:
@@ -544,9 +546,9 @@ def analyse_sql_structure(root) -> SqlStructure:
             using = using | set(node.partition_by) | set(node.order_by) | set(node.reverse)
             subops = [k for k in node.ops if k in using]
             if not subops:
-                return walk(node.sources[0], using, cause)
+                return walk(node.sources[0], using, cause, bound=bound)
             sub_using = set(node.columns_used_from_sources(using=OrderedSet(sorted(using)))[0])
-            sub = walk(node.sources[0], sub_using, "extend-overwrites-all" if not sub_using else cause)
+            sub = walk(node.sources[0], sub_using, "extend-overwrites-all" if not sub_using else cause, bound=set(sub_using))
             keys = set(k for k in using)
             if sub["kind"] == "unary" and sub["mergeable"] and sub["dep_keys"] is not None and not sub["suffix"]:
                 # non_trivial_terms(dep_dict=sub.declared_term_dependencies, term_dict=sub.terms) reads
@@ -556,22 +558,24 @@ def analyse_sql_structure(root) -> SqlStructure:
             return desc("unary", terms=keys, mergeable=True, dep_keys=set(keys))
         if nm == "ProjectNode":
             subops = [k for k in node.ops if k in using]
-            if len(node.group_by) == 0 and len(node.ops) > 0 and not subops:
+            bound_ops = subops if bound is None else [k for k in subops if k in bound]
+            if len(node.group_by) == 0 and len(node.ops) > 0 and not bound_ops:
+                # no aggregate is left in the rendered SELECT: it degenerates to SELECT * (one row per input row)
                 st.pruned.add(id(node))
             sub_using = set(node.columns_used_from_sources(using=using)[0])
-            walk(node.sources[0], sub_using, "project-pruned" if not sub_using else cause)
+            walk(node.sources[0], sub_using, "project-pruned" if not sub_using else cause, bound=set(sub_using))
             return desc("unary", terms=set(subops) | set(node.group_by), suffix=len(node.group_by) > 0)
         if nm in ("SelectRowsNode", "MapColumnsNode", "RenameColumnsNode"):
             sub_using = set(node.columns_used_from_sources(using=OrderedSet(sorted(using)))[0])
-            walk(node.sources[0], sub_using, cause)
+            walk(node.sources[0], sub_using, cause, bound=set(sub_using))
             return desc("unary", terms=set(using), suffix=(nm == "SelectRowsNode"))
         if nm == "OrderRowsNode":
             sub_using = set(node.columns_used_from_sources(using=using)[0])
-            walk(node.sources[0], sub_using, cause, star=(star and was_none))
+            walk(node.sources[0], sub_using, cause, star=(star and was_none), bound=set(sub_using))
             return desc("unary", terms=(None if was_none else set(sub_using)), suffix=True)
         if nm == "SelectColumnsNode":
             sub_using = set(node.columns_used_from_sources(using=using)[0])
-            sub = walk(node.sources[0], sub_using, cause, star=star)
+            sub = walk(node.sources[0], sub_using, cause, star=star, bound=(set(sub_using) if bound is None else set(bound) & set(sub_using)))
             if sub["terms"] is not None and not isinstance(sub["terms"], list):
                 if any(k not in sub["terms"] for k in node.column_selection if k in sub_using):
                     fail("KeyError", "unmodelled")
@@ -583,7 +587,7 @@ def analyse_sql_structure(root) -> SqlStructure:
             return sub
         if nm == "DropColumnsNode":
             sub_using = set(node.columns_used_from_sources(using=using)[0])
-            sub = walk(node.sources[0], sub_using, cause)
+            sub = walk(node.sources[0], sub_using, cause, bound=(set(sub_using) if bound is None else set(bound) & set(sub_using)))
             if sub["terms"] is None or isinstance(sub["terms"], list):
                 fail("TypeError", "rawq-drop")
             keep = [k for k in using if k not in node.column_deletions]
@@ -595,8 +599,8 @@ def analyse_sql_structure(root) -> SqlStructure:
             if len(using) < 1:
                 fail("ValueError", "project-pruned" if cause == "project-pruned" else "empty-using")
             ul, ur = node.columns_used_from_sources(using=OrderedSet(sorted(using | set(node.on_a) | set(node.on_b))))
-            walk(node.sources[0], set(ul), cause)
-            walk(node.sources[1], set(ur), cause)
+            walk(node.sources[0], set(ul), cause, bound=set(ul))
+            walk(node.sources[1], set(ur), cause, bound=set(ur))
             return desc("binary", terms=set(using))
         if nm == "ConcatRowsNode":
             if len(using) < 1:
@@ -607,8 +611,8 @@ def analyse_sql_structure(root) -> SqlStructure:
             if node.id_column is not None:
                 srcs = [srcs[0].extend({node.id_column: '"%s"' % node.a_name}), srcs[1].extend({node.id_column: '"%s"' % node.b_name})]
                 joint = joint | {node.id_column}
-            walk(srcs[0], joint, cause)
-            walk(srcs[1], joint, cause)
+            walk(srcs[0], joint, cause, bound=set(joint))
+            walk(srcs[1], joint, cause, bound=set(joint))
             return desc("binary", terms=set(using))
         if nm == "ConvertRecordsNode":
             walk(node.sources[0], None, cause)
